@@ -32,7 +32,7 @@ histories — which the suite samples at one or two book examples to 2–3 decim
 * **every size** — chain theorems are inductions over the list of joints or links, not n = 3 and 6;
 * **branch completeness** — the planner's six-test separating-axis routine is proved *equivalent* to geometric
   intersection, so a dropped or mis-indexed branch is a failed proof, not a lucky sample;
-* **every subscript** — 306 index-bound theorems, regenerated from the kernels' source on every run.
+* **every subscript** — 408 index-bound theorems (306 inside the kernels, 102 at the call sites that slice arrays into them), regenerated from the source on every run.
 
 Method. Each property is stated as Lean 4 theorems about an **executable model** of the anchored code. A model is written
 once, *generically over a scalar type* (`class Scalar α`: `+ − × ÷`, `<`, `≤`, `sin cos tan sqrt acos atan2 floor`,
@@ -62,8 +62,8 @@ concrete failing input as the replay; if none is found it still reports the viol
 
 What is *not* a proof here and is labelled `sampled_not_proved` in every evidence file: anything about IEEE rounding (the
 theorems are over ℝ or exact rationals; tolerances absorb rounding and the correspondence measures it), convergence of
-Newton / quasi-Newton iterations (C07 local convergence, C09 FK recovery), derivative and energy identities of the
-recursive dynamics (part of C06/C08), compiled = interpreted values (half of C17), "Python does not raise" (C20).
+Newton / quasi-Newton iterations (C07 local convergence, C09 FK recovery), the passivity, gravity-gradient and energy
+identities of the recursive dynamics (part of C08), the derivative clause of C06 inside the cut-off band of a joint, compiled = interpreted values (half of C17), "Python does not raise" (C20).
 
 --------------------------------------------------------------------------------------
 
@@ -80,9 +80,9 @@ recursive dynamics (part of C06/C08), compiled = interpreted values (half of C17
   lean/                      # `lake new BR lib`, no `require`; lib BR + exe brdriver
     BR/Scalar.lean           # classes OrdField / Scalar, Float and Rat instances              (import-free)
     BR/LinAlg.lean           # V3 M3 V6 M6(blocks) T4 as structures                           (import-free)
-    BR/Model/*.lean          # MR MRRef Tm Screw Helpers Comms RRT Heap HeapOps Arm IK Urdf Dyn SP Disp   (import-free)
+    BR/Model/*.lean          # MR MRRef Tm Screw Helpers Comms RRT Heap HeapOps Arm ArmStatics IK Urdf Dyn SP SPCarry Disp   (import-free)
     BR/Gen/C15.lean          # REGENERATED every run (T-trace of RRTStar.obstruction)
-    BR/Gen/C17.lean          # REGENERATED every run (T-index: 306 index-bound theorems)
+    BR/Gen/C17.lean          # REGENERATED every run (T-index: 408 index-bound theorems)
     BR/Driver.lean           # line protocol over the executable instances -> `brdriver`
     BR/Real.lean             # instance Scalar ℝ, bridge simp lemmas
     BR/Lemmas/*.lean         # SegBox Rot SO3 TmLemmas M3Ring SE3 Chain (single Mathlib modules imported)
@@ -232,6 +232,8 @@ corrected; none is listed as a finding and no correct check was loosened.
 | C07 | thorough tier: `incoherent-after-success` 6e-7 | a stored joint angle of 2π + 5e-7 is wrapped into the exponential's cut-off band; the harness compared the reported pose with the *exact* product of exponentials instead of with the pose as the library computes it | the library's own FK of the stored vector is an accepted reference when a stored angle lies inside the band |
 | C09 | thorough tier: `SPFKinSpaceR` mismatch 26 | both runs had used up a 60-iteration budget from a start below the height floor: a non-convergent iteration amplifies rounding without bound | after a budget exit only the iteration count is compared |
 | C18 | thorough tier: `hlp.interp` model = identity, implementation = half turn | the *result* of the interpolation was within rounding of a half turn, where the logarithm's branch is decided by the last bit (the known finding); only the relative rotation had been guarded | correspondence only when the inputs and the result stay 1e-2 / 1e-3 away from a half turn; the falsifier classifies the rest |
+| C10 | thorough tier (seed 2): 4 histories where the model could not consume the recorded solver outputs | the length corrective action rescales the shortest leg onto the limit itself and the FK that follows reproduces it to solver tolerance: the next `length < limit` is decided by the last bit, and the model (same formula, other evaluation order) went the other way | the recorder flags operations in which a leg-limit comparison was made within 1e-9 of the limit; a history is not compared past such a decision (counted in `histories_cut_at_a_last_bit_limit_decision`); the coherence / constraint falsifier still runs on it |
+| C17 | INFRASTRUCTURE-ERROR on a seeded change | the bounds-checked worker died when a set-up step between two recorded calls raised `IndexError`; the run was reported as broken machinery although the exception *was* the violation | set-up failures are recorded and classified like any other call |
 | C13 | model/loader mismatch 6e-3 | documents with a rotation next to a half turn: the loader really is off there (known finding), the *correspondence* must not double-report it | such documents are classified (`fk:origin-near-half-turn`), left to the falsifier and matched by the open finding |
 '''
 
@@ -248,6 +250,9 @@ OBSERVATIONS = r'''
   the platform geometry. C09/C10 hold for the deformed platform; nothing listed says the geometry must be preserved.
 * `Arm.move` re-bases joint homes but not link homes (`_link_homes_global`): `FKLink` / `jacobianLink` after a move refer to
   the old placement. C05 speaks of joint-frame poses, C06 of link Jacobians *relative to the library's link frame*.
+* After a length corrective action by rescaling, the shortest / longest leg sits *on* the limit; the re-validation that follows
+  (`validate(True, 1)` on lengths reproduced to solver tolerance) is then decided by rounding — the same request can come back
+  'valid' or 'invalid'. Either answer is sound in the sense of C10 ('valid' is only reported when the comparison passed).
 * `_FKRaphson` tries only the first of its five auxiliary starts (the loop returns on the first failure).
 * `fsolve` from a start with zero rotation cannot see the rotation derivatives (its finite-difference step falls inside the
   1e-6 cut-off), so `fk_mode = 0` from the neutral pose always ends in the Raphson fallback.
@@ -292,7 +297,7 @@ def section5():
             m = importlib.import_module(pid.lower())
             th = list(m.THEOREMS)
             if pid == 'C17':
-                out.append('**Theorems.** generated: `BR.Gen.C17.<Kernel>_<k>`, one per subscript (306 on the current tree), all audited.\n')
+                out.append('**Theorems.** generated: `BR.Gen.C17.<Kernel>_<k>`, one per subscript and per resolved call-site slice (408 on the current tree), all audited.\n')
             else:
                 out.append('**Theorems (audited).** ' + ', '.join('`%s`' % t for t in th) + '\n')
             out.append('**Tie.** ' + getattr(m, 'TIE', '') + '\n')
